@@ -32,7 +32,7 @@ def battery(fqe, seed, tier, log=None):
 
     def put(name, arr):
         a = numpy.ascontiguousarray(numpy.asarray(arr))
-        if a.size <= 40000:
+        if a.size <= 200000:
             a = a.astype(numpy.complex128).ravel()
             out[name] = [[float(z.real), float(z.imag)] for z in a]
         else:
